@@ -15,7 +15,10 @@ EXPLANATION = (
     "or document-derived (violation); (b) every label->BNode map is created inside a function of an object that is "
     "constructed per parse() call - never a class attribute, module global or mutable default; (c) parser modules "
     "never call a removing method on the sink graph/dataset, except removing a graph proven empty by a dominating "
-    "len(X) == 0 test of the same X."
+    "len(X) == 0 test of the same X; (e) an identifier a parser mints itself carries an intact uuid/random value - a per-process "
+    "counter, a source position or a truncated unique value is unique inside one process only and collides in a persistent store; "
+    "a parameter that the parser package binds itself is not a caller's opt-in flag; (f) a parse attempt whose failure is swallowed "
+    "(try/except that goes on) runs on a scratch graph, never on the target."
 )
 
 PARSER_PKGS = ("rdflib.plugins.parsers.", "rdflib.plugins.shared.jsonld.")
@@ -26,13 +29,15 @@ REMOVERS = {"remove", "remove_graph", "remove_context", "set", "destroy", "clear
 
 # interprocedural classifications that need a who-calls fact; each carries the fact checked on every run
 TABLE = {
-    ("Formula.newBlankNode", "BNode(uri.split('#').pop().replace('_', 'b'))"):
-        ("generated", "uri is SinkParser.here() = _genPrefix + position; _genPrefix is uniqueURI() (process-unique counter) because no SinkParser(...) call site passes thisDoc/genPrefix", "sinkparser-ctor"),
     ("RDFSink.newBlankNode", "BNode(str(arg[0]).split('#').pop().replace('_', 'b'))"):
         ("generated", "legacy (SYMBOL, uri) tuple form of the N3 store API; every call site passes a Formula/Graph context or None, for which the uuid+counter branch is taken", "newblanknode-args"),
-    ("Formula.id", "BNode('_:Formula%s' % self.number)"):
-        ("generated", "N3 formula identifier from the process-wide Formula.number counter, not a document label", "formula-counter"),
 }
+# Two rows that used to be here were wrong and hid F74/F75: `Formula.id` = BNode('_:Formula%s' % self.number) (a per-process
+# counter) and `Formula.newBlankNode` = BNode(uri.split('#').pop()...) (the unique _genPrefix is cut off by split('#').pop(),
+# what is left is a per-process counter + the source position).  Both are unique inside one process only; see rule C12.e.
+
+# sites of rule (a) handed to rule (e): (module name, module, qualified function, enclosing def, call, argument, verdict of (a))
+_MINT_SITES: list = []
 
 
 def _flag_names(mod) -> dict[str, object]:
@@ -185,6 +190,7 @@ def mod_parent(mod, node):
 def run(repo: Repo, rep: Report) -> None:
     rep.extra["explanation"] = EXPLANATION
     typed = repo.typed
+    del _MINT_SITES[:]
     mods = {n: m for n, m in repo.modules.items() if n.startswith(PARSER_PKGS) and n not in EXCLUDED}
     if len(mods) < 8:
         raise AnalysisError("expected >= 8 parser modules, found %s" % sorted(mods))
@@ -200,6 +206,10 @@ def run(repo: Repo, rep: Report) -> None:
              "the who-calls facts that the interprocedural classifications rely on hold on this tree", floor=3)
     n_sites = 0
     used_table = set()
+    from vlib import h_c12
+    uniq = h_c12.Uniq(repo, typed)
+    internal = h_c12.internal_params(repo, typed, mods, {n: _flag_names(m) for n, m in mods.items()})
+    rep.info["parameters_bound_by_the_parsers_themselves"] = sorted("%s:%s(%s)" % k for k in internal)
     for name, mod in mods.items():
         flags = _flag_names(mod)
         gattrs = _gen_attrs(mod)
@@ -242,15 +252,25 @@ def run(repo: Repo, rep: Report) -> None:
                                "mapped: re-wraps the node stored in the label map %s (values are generated BNodes)" % norm(rhs[0])[:40], node=c)
                         continue
                 g = _contains_gen(args[0], gattrs)
+                if not g:
+                    # the same through locals / helper functions / a counter (def-use, vlib.h_c12): generated, not a document label;
+                    # whether what was generated is unique ENOUGH is rule (e)
+                    st, st_why = uniq.strength(args[0], name, f)
+                    g = st_why if st != h_c12.NONE else None
                 if g:
+                    _MINT_SITES.append((name, mod, where, f, c, args[0], "generated"))
                     rep.ob("C12.a-label-is-not-identity", mod, where, c, True, "generated: argument contains the per-run unique source %s" % g, node=c)
                     continue
-                fl = _under_flag(mod, c, f, flags)
+                # a parameter that the parser package binds itself (blankNode(uri=self.here(j)) -> ... -> Formula.newBlankNode(uri)) is
+                # not an option of the caller of parse(), whatever its default
+                flags_here = {k: v for k, v in flags.items() if (name, where, k) not in internal and (name, q, k) not in internal}
+                fl = _under_flag(mod, c, f, flags_here)
                 if fl:
                     rep.ob("C12.a-label-is-not-identity", mod, where, c, True, "opt-in: reached only when the caller changes a flag (%s)" % fl, node=c)
                     continue
+                _MINT_SITES.append((name, mod, where, f, c, args[0], "not-generated"))
                 rep.ob("C12.a-label-is-not-identity", mod, where, c, False,
-                       "document-derived: the argument %s flows from the parsed text with no per-run unique component and no opt-in flag: "
+                       "document-derived: the argument %s flows from the parsed text (or a position / counter) with no per-run unique component and no opt-in flag: "
                        "the same label in two documents (or two parses) yields the same blank node" % norm(args[0])[:80], node=c)
     rep.info["bnode_constructor_sites"] = n_sites
 
@@ -571,3 +591,96 @@ def run(repo: Repo, rep: Report) -> None:  # noqa: F811
                 rep.ob("C12.d-label-map-keyed-by-the-label-alone", mod, "%s.%s" % (n.name, site["method"]), "self.%s[%s]" % (site["attr"], norm(site["key"])), not deps,
                        "key is the label itself" if not deps else
                        "the key is computed with self.%s: the same label denotes different nodes depending on parser state (e.g. one rdf:nodeID used under two xml:base values in one document yields two blank nodes)" % ", self.".join(sorted(deps)), node=site["store"])
+
+
+_run_base2 = run
+
+
+def run(repo: Repo, rep: Report) -> None:  # noqa: F811
+    _run_base2(repo, rep)
+    from vlib import h_c12
+
+    typed = repo.typed
+
+    # ------------------------------------------------------------------ (e)
+    # F74 / F75: an identifier minted by the parser must be unique over runs, not only inside one process: the sink may be a
+    # persistent store that already holds what an earlier process parsed.
+    rep.rule("C12.e-minted-id-unique-across-runs",
+             "every blank-node identifier a parser mints itself (a BNode(<arg>) that is neither behind a caller-supplied opt-in flag nor a re-wrapped "
+             "map value) carries, INTACT, a value that differs between any two parse calls of any two processes: uuid4()/secrets/urandom, directly or "
+             "through an attribute/local every binding of which is such a value, combined only by concatenation/formatting/replace. A per-process "
+             "counter (`Formula.number += 1`, `nextu += 1`), a source position, or a unique value that went through split()/pop()/slicing (its unique "
+             "part may be the one cut off) is unique inside one process only: parse `{ :a :b :c } :p :o .` into a persistent store in two runs and "
+             "`_:Formula2` of the first run is the same graph name as `_:Formula2` of the second - the two quoted graphs merge", floor=5)
+    uq = h_c12.Uniq(repo, typed)
+    # a class (or module-level function) that mints generated identifiers somewhere: every BNode(<arg>) of it that rule (a) did not
+    # find behind an opt-in flag is a minting site, also one whose argument has lost its generated part altogether
+    owner = lambda where: where.rpartition(".")[0] or where  # noqa: E731
+    minters = {(name, owner(where)) for (name, mod, where, f, c, arg, verdict) in _MINT_SITES if verdict == "generated"}
+    for (name, mod, where, f, c, arg, verdict) in list(_MINT_SITES):
+        s, why = uq.strength(arg, name, f)
+        if verdict != "generated" and s == h_c12.NONE and (name, owner(where)) not in minters:
+            continue  # nothing generated in it or near it: a document label, rule (a) reports it
+        rep.ob("C12.e-minted-id-unique-across-runs", mod, where, c, s == h_c12.STRONG,
+               "carries %s intact" % why if s == h_c12.STRONG else
+               "the only varying part of the identifier is unique inside one process at most (%s): the same identifier is minted again by the next process "
+               "that parses into the same persistent store, and blank nodes / quoted graphs of separately parsed documents merge" % why, node=c)
+
+    # ------------------------------------------------------------------ (f)
+    # F120: a parser adds as it reads; when it fails, what it had read is already in the sink.
+    rep.rule("C12.f-abandoned-parse-attempt-on-scratch-graph",
+             "a parse call (Graph.parse / Parser.parse and overrides, or .parse() on a receiver of unknown type) whose failure is swallowed - it sits in "
+             "the body of a `try` one of whose handlers does not re-raise on every path (pass / continue / return / fall through to another attempt) - "
+             "parses into a graph constructed on the spot with its own store, never into a graph the function was given: a failed attempt has already added "
+             "the triples it read. SPARQL `LOAD <d>` with d = `[] <p> <o> . { <a> <b> <c> } <q> <r> .`: the Turtle attempt adds `_:b1 <p> <o>` and fails at "
+             "`{`, the N3 attempt that follows adds `_:b2 <p> <o>`; the target ends up with two blank nodes where the document has one, i.e. not the merge "
+             "of the old content and the document", floor=2)
+    graph_parse = set(typed.overrides("rdflib.graph.Graph.parse"))
+    parser_parse = set(typed.overrides("rdflib.parser.Parser.parse"))
+    if "rdflib.graph.Graph.parse" not in graph_parse or len(parser_parse) < 5:
+        raise AnalysisError("Graph.parse / Parser.parse overrides not resolved (%d / %d)" % (len(graph_parse), len(parser_parse)))
+    n_try = 0
+    for name, mod in repo.modules.items():
+        for q, f in mod.functions():
+            for t in own_nodes(f):
+                if not isinstance(t, ast.Try) or not t.handlers:
+                    continue
+                calls = []
+                stack = list(t.body)
+                while stack:
+                    n = stack.pop()
+                    if isinstance(n, (ast.FunctionDef, ast.AsyncFunctionDef, ast.ClassDef, ast.Lambda)):
+                        continue
+                    if isinstance(n, ast.Call) and isinstance(n.func, ast.Attribute) and n.func.attr == "parse":
+                        calls.append(n)
+                    stack.extend(ast.iter_child_nodes(n))
+                for c in calls:
+                    cal = set(typed.callees(name, c))
+                    rtf = typed.type_of(name, c.func.value)
+                    sink = None
+                    if cal & graph_parse:
+                        # bound call g.parse(...) or unbound Class.parse(g, ...)
+                        unbound = rtf is not None and rtf.text.startswith("def ")
+                        sink = (c.args[0] if c.args else None) if unbound else c.func.value
+                    elif cal & parser_parse:
+                        sink = c.args[1] if len(c.args) > 1 else next((k.value for k in c.keywords if k.arg in ("sink", "graph")), None)
+                    elif not cal and (rtf is None or rtf.any):
+                        sink = c.func.value  # receiver of unknown type: may be a graph
+                    else:
+                        continue  # xml.sax / json / Result parsers: not a parse into a graph
+                    n_try += 1
+                    sw = [h for h in t.handlers if h_c12.swallows(h)]
+                    where = mod.qual_of(c) or q
+                    if not sw:
+                        rep.ob("C12.f-abandoned-parse-attempt-on-scratch-graph", mod, where, c, True,
+                               "every handler of the enclosing try re-raises: the failure is not hidden from the caller", node=c)
+                        continue
+                    encl = mod.defs.get(where) if isinstance(mod.defs.get(where), (ast.FunctionDef, ast.AsyncFunctionDef)) else f
+                    fresh, why = (False, "sink argument not found") if sink is None else h_c12.fresh_graph(sink, name, encl, typed)
+                    rep.ob("C12.f-abandoned-parse-attempt-on-scratch-graph", mod, where, c, fresh,
+                           "the attempt whose failure is swallowed runs on a scratch graph (%s)" % why if fresh else
+                           "`except %s` swallows the failure of a parse into %s (%s): the triples (and fresh blank nodes) the failed attempt had already added stay "
+                           "in that graph while the code goes on to the next attempt / returns normally" % (
+                               norm(sw[0].type) if sw[0].type is not None else "", norm(sink)[:40] if sink is not None else "?", why), node=c)
+    if n_try < 2:
+        raise AnalysisError("expected >= 2 parse calls inside try statements (Graph.parse -> parser.parse, QueryContext.load), found %d" % n_try)
